@@ -262,9 +262,82 @@ def run_threads(case):
     return {'evals': len(found), 'sigs': sigs, 'stats': stats, 'violations': violations}
 
 
+def long_waits(case):
+    """waits that are woken thousands of times before they hold: the kernel must neither fail
+    (recursion, stack) nor accumulate anything per wake-up (the probe samples the depth of the
+    chain of awaits of every activity it resumes)"""
+    import usim
+    from usim import time, until, Flag, Tracked, Scope, eternity
+    rng = random.Random('%s/%s/c03-long' % (case['seed'], case['index']))
+    wakes = rng.choice([700, 1500, 2500])
+    a, b, x = Flag(), Flag(), Tracked(0)
+    done = []
+    kinds = rng.sample(['and', 'until-and', 'or-of-ands', 'tracked', 'until-tracked', 'nested',
+                        'inverted'], 3)
+
+    async def waiter(kind):
+        if kind == 'and':
+            await (a & b)
+        elif kind == 'until-and':
+            async with until(a & b):
+                await eternity
+        elif kind == 'or-of-ands':
+            await ((a & b) | (b & a & (x >= wakes * 3)))
+        elif kind == 'tracked':
+            await ((x >= wakes * 2) & b)
+        elif kind == 'until-tracked':
+            async with until((x >= wakes * 2) & (x >= 1)):
+                await eternity
+        elif kind == 'inverted':
+            await (~(~a | ~b))
+        else:
+            await (a & (b & a))
+        done.append((kind, time.now))
+
+    async def driver():
+        for number in range(wakes):
+            # (a waiter only listens to the operands that are false when it looks: the two
+            # flags take turns, so every round wakes it and it never finds both of them set)
+            flag = b if number % 2 else a
+            await flag.set(True)
+            await x.set(x.value + 1)
+            if number % 50 == 0:
+                await (time + 1)
+            await flag.set(False)
+            await x.set(x.value + 1)
+        await b.set(True)
+        await a.set(True)
+
+    async def main():
+        async with Scope() as scope:
+            for kind in kinds:
+                scope.do(waiter(kind))
+            scope.do(driver())
+    sess = Session(budget_per_step=400000, budget_total=4000000)
+    root = main()
+    root.__name__ = root.__qualname__ = 'long-waits'
+    outcome = sess.run(root)
+    violations = [dict(v, case=dict(case)) for v in sess.violations
+                  if v['mechanism'].startswith('kernel-')]
+    end = (wakes + 49) // 50
+    if outcome[0] != 'ok':
+        violations.append({'mechanism': 'internal-error:%s' % type(outcome[1]).__name__,
+                           'msg': 'waits woken %d times before they hold: run() ended with %r' % (
+                               wakes, outcome[1]), 'case': dict(case)})
+    elif sorted(done) != sorted((kind, end) for kind in kinds):
+        violations.append({'mechanism': 'long-wait-not-completed',
+                           'msg': 'waits %s woken %d times before they hold at %r completed as %s'
+                                  % (kinds, wakes, end, done), 'case': dict(case)})
+    return {'evals': 1, 'sigs': [], 'violations': violations,
+            'stats': {'long_waits': len(kinds), 'wakeups_of_long_waits': wakes * len(kinds),
+                      'activations': sess.n}}
+
+
 def run_case(case):
     if case.get('gen') == 'threads':
         return run_threads(case)
+    if case.get('plan') is None and case['index'] % 40 == 7:
+        return long_waits(case)
     if case.get('canary') == 'd15':
         return {'evals': 1, 'sigs': [], 'stats': {'canary_runs': 1}, 'violations': d15_canary()}
     if case.get('canary') == 'd22':
